@@ -15,18 +15,16 @@ Record case := {
   c_det : option string;                       (* detached payload option *)
   c_tok : string;                              (* the token as received *)
   c_hdr : option hview;                        (* what the JSON decoder made of the decoded header bytes *)
-  c_keys : list (string * string * pkey);      (* the resolver's answers: (did, fragment) -> key *)
+  c_docs : list (string * list vmeth);         (* the DID documents the VDR serves (the one the kid names) *)
   c_sig0 : string;                             (* a signature segment whose meaning the harness knows ... *)
   c_sigv0 : sigv;                              (* ... and that meaning *)
   c_payobj : bool;                             (* PayloadToMap succeeds on the payload *)
   c_obs : obs
 }.
 
-Fixpoint lookup_key (t : list (string * string * pkey)) (d f : string) : option pkey :=
-  match t with
-  | [] => None
-  | (d', f', k) :: r => if String.eqb d d' && String.eqb f f' then Some k else lookup_key r d f
-  end.
+(* short constructor for the case files *)
+Definition M (id : string) (r : rel) (f : fam) (p : repr) (n : N) : vmeth :=
+  {| vm_id := id; vm_rel := r; vm_key := {| pk_fam := f; pk_repr := p; pk_id := n |} |}.
 
 Definition case_sig_meaning (c : case) (bs : list N) : sigv :=
   match bs with
@@ -46,7 +44,7 @@ Definition stage_eqb (a b : stage) : bool :=
 
 Definition run_case (v : variant) (c : case) : out :=
   let ph := fun _ : list N => c_hdr c in
-  let rs := lookup_key (c_keys c) in
+  let rs := resolve_docs (c_docs c) in
   let sm := case_sig_meaning c in
   let det := option_map chars (c_det c) in
   match c_entry c with
